@@ -83,11 +83,69 @@ fn to_crate_logical(l: &Logical) -> LogicalType {
 	}
 }
 
+/// How the `Name`s of null-namespace types are constructed through the public constructor
+/// `Name::from_fully_qualified_name`: as `"X"` or as `".X"` (documented: leading dot stripped,
+/// namespace None — under a namespaced parent the only way to say "null namespace" by name alone).
+#[derive(Clone, Copy, Debug, PartialEq, Eq, Hash)]
+pub enum NameSpell {
+	Plain,
+	/// every null-namespace name as ".X"
+	Dotted,
+	/// null-namespace names of odd-numbered nodes as ".X", of even-numbered ones as "X"
+	OddDotted,
+}
+
+impl NameSpell {
+	pub fn label(&self) -> &'static str {
+		match self {
+			NameSpell::Plain => "plain",
+			NameSpell::Dotted => "dotted",
+			NameSpell::OddDotted => "odd-dotted",
+		}
+	}
+	pub fn from_label(s: &str) -> NameSpell {
+		match s {
+			"dotted" => NameSpell::Dotted,
+			"odd-dotted" => NameSpell::OddDotted,
+			_ => NameSpell::Plain,
+		}
+	}
+	pub fn origin(&self) -> &'static str {
+		match self {
+			NameSpell::Plain => "built with from_nodes",
+			NameSpell::Dotted => "built with from_nodes, null-namespace names constructed as Name::from_fully_qualified_name(\".X\")",
+			NameSpell::OddDotted => "built with from_nodes, null-namespace names of odd-numbered nodes constructed as Name::from_fully_qualified_name(\".X\")",
+		}
+	}
+}
+
+/// The spellings each graph of a level is executed with: both uniform spellings up to 3 nodes,
+/// the mixed one (no extra executions) above.
+pub fn spellings_for(b: &GBounds) -> &'static [NameSpell] {
+	if b.n <= 3 {
+		&[NameSpell::Plain, NameSpell::Dotted]
+	} else {
+		&[NameSpell::OddDotted]
+	}
+}
+
+pub fn has_null_namespace_name(g: &[GNode]) -> bool {
+	g.iter().any(|n| n.name().map_or(false, |nm| !nm.contains('.')))
+}
+
 pub fn to_crate(g: &[GNode]) -> Vec<SchemaNode> {
+	to_crate_spelled(g, NameSpell::Plain)
+}
+
+pub fn to_crate_spelled(g: &[GNode], sp: NameSpell) -> Vec<SchemaNode> {
 	g.iter()
-		.map(|n| {
+		.enumerate()
+		.map(|(i, n)| {
 			let key = SchemaKey::from_idx;
-			let name = |s: &str| cs::Name::from_fully_qualified_name(s.to_owned());
+			let name = |s: &str| {
+				let dotted = !s.contains('.') && (sp == NameSpell::Dotted || (sp == NameSpell::OddDotted && i % 2 == 1));
+				cs::Name::from_fully_qualified_name(if dotted { format!(".{s}") } else { s.to_owned() })
+			};
 			let t: RegularType = match &n.kind {
 				GKind::Null => RegularType::Null,
 				GKind::Boolean => RegularType::Boolean,
